@@ -925,8 +925,9 @@ func (w *shapeWalker) bodySite(ok bool, key, pos, detail string) {
 
 // delegateTarget: n is declared `type n T` (T a named type of the package with a generated
 // codec) and n's MarshalJSON / UnmarshalJSON are exactly
-//   func (c n) MarshalJSON() ([]byte, error) { return T(c).MarshalJSON() }
-//   func (c *n) UnmarshalJSON(bs []byte) error { return (*T)(c).UnmarshalJSON(bs) }
+//
+//	func (c n) MarshalJSON() ([]byte, error) { return T(c).MarshalJSON() }
+//	func (c *n) UnmarshalJSON(bs []byte) error { return (*T)(c).UnmarshalJSON(bs) }
 func delegateTarget(p *Program, n *types.Named) *types.Named {
 	info := p.Pkg.TypesInfo
 	var target *types.Named
